@@ -12,6 +12,8 @@ pub const BUDGET: u64 = 600;
 
 #[derive(Serialize, Deserialize, Debug, Clone)]
 pub struct HistCase {
+    #[serde(default)]
+    pub raw_lines: Option<Vec<String>>,
     pub prog: Program,
     pub style: Style,
     pub history: Vec<Intent>,
@@ -49,7 +51,7 @@ fn case() -> impl Strategy<Value = HistCase> {
     let cfg = GenCfg { max_blocks: 10, ..GenCfg::C03.with_input() };
     (gen::program(cfg), gen::style(), any::<u64>(), super::c07::replies(), any::<bool>()).prop_flat_map(|(prog, style, final_seed, replies, warnings)| {
         let targets: Vec<u64> = prog.lines.iter().map(|l| l.number).collect();
-        history(targets).prop_map(move |history| HistCase { prog: prog.clone(), style, history, final_seed, replies: replies.clone(), warnings })
+        history(targets).prop_map(move |history| HistCase { raw_lines: None, prog: prog.clone(), style, history, final_seed, replies: replies.clone(), warnings })
     })
 }
 
@@ -82,8 +84,16 @@ fn probes(sess: &mut Sess) -> Result<Vec<String>, Crash> {
     Ok(out)
 }
 
+fn repo_case() -> impl Strategy<Value = HistCase> {
+    (0usize..2, any::<u64>(), crate::textgen::numeric_replies(), any::<bool>()).prop_flat_map(|(w, final_seed, replies, warnings)| {
+        let lines = crate::textgen::repo_program(w);
+        let targets: Vec<u64> = lines.iter().filter_map(|l| l.trim_start().split(' ').next().and_then(|n| n.parse().ok())).collect();
+        history(targets).prop_map(move |history| HistCase { raw_lines: Some(lines.clone()), prog: Program::default(), style: Style::PLAIN, history, final_seed, replies: replies.clone(), warnings })
+    })
+}
+
 fn check(c: &HistCase, rec: &mut CaseRec) -> Verdict {
-    let lines = render_program(&c.prog, c.style);
+    let lines = c.raw_lines.clone().unwrap_or_else(|| render_program(&c.prog, c.style));
     let mut used = Sess::new();
     used.set_options(c.warnings, false);
     match used.enter_program(&lines) {
@@ -216,6 +226,7 @@ pub fn property() -> Property {
             true,
             |_| 1,
             |_, _| HistCase {
+                raw_lines: None,
                 prog: Program {
                     lines: vec![
                         Line { number: 10, stmts: vec![Stmt::Input(LValue::Var("Q".into()))] },
@@ -231,6 +242,7 @@ pub fn property() -> Property {
             check,
         ),
         prop_family("histories", 80_000, 1_500_000, |_| case(), check),
+        prop_family("repo-programs", 1_500, 50_000, |_| repo_case(), check),
     ];
     Property {
         id: "C10",
